@@ -106,11 +106,12 @@ class Ref:
     def apply(self, line, c05):
         """returns the expected observation (without the implementation's private counters)"""
         self.now += 1
+        self.assigns = 0          # assignments to container-held objects this op is allowed (and bound) to perform
         t = line.split()
         if t[0] == "destroyall":
             for k in KINDS:
                 self.v[k] = [[], []]
-            return "end # live=0"
+            return "end # live=0 as=0"
         m = re.fullmatch(r"([ALMUHSPQ])\.(\w+)", t[0])
         if not m:
             return "bad-op"
@@ -123,7 +124,7 @@ class Ref:
             return "bad-op"
         if not self.do(k, op, a):
             return "bad-op"
-        return f"{k} {self.show(k, 0, c05)} | {self.show(k, 1, c05)} # live={self.live()}"
+        return f"{k} {self.show(k, 0, c05)} | {self.show(k, 1, c05)} # live={self.live()} as={self.assigns}"
 
     def do(self, k, op, a):
         V = self.v[k]
@@ -154,6 +155,8 @@ class Ref:
         elif op in ("removefront", "removeback") and n == 1:
             if not x:
                 return False
+            if k == "A" and op == "removefront":
+                self.assigns = len(x) - 1          # Array::remove shifts the tail down by assignment
             del x[0 if op == "removefront" else -1]
         # -- Array
         elif k == "A":
@@ -181,13 +184,17 @@ class Ref:
             elif op == "reserve" and n == 2:
                 pass
             elif op == "remove" and n == 2:
-                if a[1] < len(x): del x[a[1]]
+                if a[1] < len(x):
+                    self.assigns = len(x) - 1 - a[1]
+                    del x[a[1]]
             elif op == "removeit" and n == 2:
                 if a[1] >= len(x): return False
+                self.assigns = len(x) - 1 - a[1]
                 del x[a[1]]
             elif op == "set" and n == 3:
                 if a[1] >= len(x): return False
                 x[a[1]][0] = a[2]
+                self.assigns = 1
             else:
                 return False
         # -- List
@@ -227,6 +234,7 @@ class Ref:
             elif op == "set" and n == 3:
                 if a[1] >= len(x): return False
                 x[a[1]][0] = a[2]
+                self.assigns = 1
             else:
                 return False
         # -- Map / MultiMap
@@ -236,6 +244,7 @@ class Ref:
                     for e in x:
                         if e[0] == key:
                             e[1] = val
+                            self.assigns += 1        # the only assignment a map may do: overwrite the value of that very key
                             return
                     pos = sum(1 for e in x if e[0] < key)
                 else:
@@ -265,6 +274,7 @@ class Ref:
             elif op == "set" and n == 3:
                 if a[1] >= len(x): return False
                 x[a[1]][1] = a[2]
+                self.assigns = 1
             else:
                 return False
         # -- HashMap
@@ -273,6 +283,7 @@ class Ref:
                 for e in x:
                     if e[0] == key:
                         e[1] = val
+                        self.assigns += 1
                         return
                 x.insert(pos, self.fresh(key, val))
             if op in ("append", "prepend") and n == 3:
@@ -291,6 +302,7 @@ class Ref:
             elif op == "set" and n == 3:
                 if a[1] >= len(x): return False
                 x[a[1]][1] = a[2]
+                self.assigns = 1
             else:
                 return False
         # -- HashSet
@@ -372,9 +384,13 @@ def make_reference(c05):
         cnt = dict(kv.split("=") for kv in pi[1].split())
         if any(cnt.get(z) != "0" for z in ("u", "dd", "ov")):
             return False
+        want = dict(kv.split("=") for kv in pr[1].split())
         if c05:
-            return True
-        live = int(pr[1].split("=")[1])
+            # "never copy or move": the only assignments to container-held objects are overwrites of the value of that very key
+            return cnt.get("as") == want["as"]
+        live = int(want["live"])
+        if len(pi) > 2 and sum(1 for tok in pi[2].split() if tok.startswith("A")) != int(want["as"]):
+            return False
         if int(cnt["c"]) - int(cnt["d"]) != int(cnt["live"]) or int(cnt["live"]) != live or cnt["t"] != "0":
             return False
         if ref.startswith("end") and cnt["b"] != "0":
